@@ -98,11 +98,12 @@ Definition sstep (is_marker : str -> bool) (s : sst) (o : sop) : option sst :=
       end
   | Stop => match stack s with
             | [] => None
-            | top :: rest => Some (mkSst top rest (secs s) (sec_index s) (indep s) (line_offset s) (not_enough s))
+            (* the whole file is the main code again: clear_line_offsets *)
+            | top :: rest => Some (mkSst top rest (secs s) (sec_index s) (indep s) 0 (not_enough s))
             end
   | Resolve => match stack s with
                | [] => Some s
-               | top :: rest => Some (mkSst top rest (secs s) (sec_index s) (indep s) (line_offset s) (not_enough s))
+               | top :: rest => Some (mkSst top rest (secs s) (sec_index s) (indep s) 0 (not_enough s))
                end
   | SetSource c => Some (mkSst c (main s :: stack s) (secs s) (sec_index s) (indep s) (line_offset s) (not_enough s))
   | Restore => match stack s with
